@@ -38,7 +38,9 @@ class C02(RS.StepProp):
                  4: 'a template atom has no (unique) copy with the same element/name/annotations under the coarse node',
                  5: "the copy's internal bonds / bond orders differ from the fragment's",
                  6: 'a coarse node without fragment carries fine nodes',
-                 7: 'a fine node does not report the fragment name of its coarse node'}
+                 7: 'a fine node does not report the fragment name of its coarse node',
+                 8: 'two atoms joined by the squash operator were not merged: a fine bond still carries a "!" descriptor, so the '
+                    'shared atom records only one of the coarse nodes it stems from'}
 
     def corpus(self, ctx):
         self.begin_round()
@@ -52,6 +54,10 @@ class C02(RS.StepProp):
                 ('{[#A][#B]}.{#A=CC[!],#B=[!]CC}', True),
                 ('{[#A]([#B])[#A]}.{#A=[$][#X]1[#Y][#Z]1[$],#B=[$][#P]=[#Q]}', False),
                 ('{[#B1][#B2][#B1]}.{#B1=[#PEO]|4,#B2=[#PE]|2}.{#PEO=[>]COC[<],#PE=[>]CC[<]}', True),
+                # the squash operator on two levels (node numbers restart on every level)
+                ('{[#A][#B]}.{#A=[#X][#Y][!],#B=[!][#Y][#Z]}.{#X=OC[!],#Y=[!]CC[!],#Z=[!]CN}', True),
+                ('{[#A][#B][#A]}.{#A=[!][#X][#Y][!],#B=[!][#Y][#X][!]}.{#X=[!]OC[!],#Y=[!]CC[!]}', True),
+                ('{[#A][#B]}.{#A=[#X][#Y][!],#B=[!][#Y][#Z]}.{#X=[#P][#Q][!],#Y=[!][#Q][#R][!],#Z=[!][#R][#S]}', False),
                 ('{[#A][#B]}.{#A=[#X][#Y][$],#B=[$][#X]}.{#X=[$]CC[$],#Y=[$]O[$]}', True),
                 ('{[#A][#B]}.{#A=[#X][#Y][$],#B=[$][#X]}.{#X=[$][#P][#Q][$],#Y=[$][#R][$]}.{#P=C[$],#Q=[$]C[$],#R=[$]N[$]}', True)]
         out = []
@@ -59,7 +65,7 @@ class C02(RS.StepProp):
             for lv in range(s.count('.{')):
                 out.append({'kind': 'step', 's': s, 'laa': laa, 'legacy': True, 'level': lv})
         out.append({'kind': 'step', 's': strs[0][0], 'laa': True, 'legacy': True, 'level': 0, 'rekey': True})
-        out.append({'kind': 'step', 's': strs[8][0], 'laa': True, 'legacy': True, 'level': 0, 'rekey': True})
+        out.append({'kind': 'step', 's': '{[#B1][#B2][#B1]}.{#B1=[#PEO]|4,#B2=[#PE]|2}.{#PEO=[>]COC[<],#PE=[>]CC[<]}', 'laa': True, 'legacy': True, 'level': 0, 'rekey': True})
         return out
 
     def generate(self, ctx, n):
@@ -72,7 +78,8 @@ class C02(RS.StepProp):
         while len(out) < n_steps:
             levels = rng.choice([1, 1, 1, 2, 2, 3])
             laa = rng.random() < 0.6
-            base, blocks = RS.rand_multilevel(rng, levels, laa, squash=rng.random() < 0.15)
+            base, blocks = RS.rand_multilevel(rng, levels, laa, squash=rng.random() < (0.15 if levels == 1 else 0.4),
+                                              coarse_squash=True, squash_chain=levels > 1 and rng.random() < 0.5)
             if rng.random() < 0.15:
                 base = RS.add_virtual_tail(rng, base)
             s = RS.join_blocks(base, blocks)
